@@ -100,10 +100,14 @@ func svalID(v []byte) string {
 }
 
 func (r *Run) fsTimeoutParam() string {
+	p := ""
 	if r.Scn.FsTimeoutNs > 0 {
-		return "&timeout=" + time.Duration(r.Scn.FsTimeoutNs).String()
+		p += "&timeout=" + time.Duration(r.Scn.FsTimeoutNs).String()
 	}
-	return ""
+	if r.Scn.FsMTime {
+		p += "&update_mtime=on"
+	}
+	return p
 }
 
 func (r *Run) ssimDSN() string {
@@ -128,7 +132,7 @@ func (r *Run) ssimOpen() (driver.Conn, error) {
 	case "fsenc":
 		switch r.Scn.EncVia {
 		case "option":
-			return fscache.Open("app", fscache.WithBaseDir("/simcache"), fscache.WithEncryption(r.ssimKey()), fscache.WithTimeout(time.Duration(r.Scn.FsTimeoutNs)))
+			return fscache.Open("app", fscache.WithBaseDir("/simcache"), fscache.WithEncryption(r.ssimKey()), fscache.WithTimeout(time.Duration(r.Scn.FsTimeoutNs)), fscache.WithUpdateMTime(r.Scn.FsMTime))
 		case "env":
 			simos.Setenv("FSCACHE_ENCRYPT_KEY", r.ssimKey())
 			defer simos.Unsetenv("FSCACHE_ENCRYPT_KEY")
